@@ -15,7 +15,7 @@ CLAIMS = {
         text="Static, partial: only the structural necessary conditions are decided -- the eigenvalue threshold and the symmetry tolerance of "
              "assert_valid_covariance data-depend on the size/magnitude of the matrix (the property's own failure mode is a scale-free gate), the "
              "prediction covariance is a sum of congruences X.A.X^T of the prior and the noise (PSD by construction, singular Jacobians included), "
-             "and the filter has no second gate.",
+             "and neither the filter nor the managed runtime (runtime.py) has a second gate.",
         note="NOT decided (outside static reach): the update step P - K.H.P staying PSD, accumulation of rounding over histories, symmetry drift, "
              "conditioning. The claim is restricted to GATE-REL / SYM-REL / PSD-FORM / GATE-SITES.",
         ref="3/C09"),
@@ -36,7 +36,8 @@ CLAIMS = {
              "order that sensor's readings (prefix slices with the remainder threaded, or a running offset that starts at 0 per row and advances by the "
              "sensor's size), predicts once with the fixed step and updates sensors in that order "
              "threading (state, covariance), appends y^T.Inv(S).y from the records of the same key, which sensor_model refreshes unconditionally; "
-             "mahalanobis is the flattened output guarded against negatives; score is the documented combination; none of them changes a parameter.",
+             "mahalanobis is the flattened output guarded against negatives; score is the documented combination; none of them changes a parameter; the "
+             "converter every data argument passes through returns its argument as an array of the same shape and contents (DATA-ENTRY).",
         note="Not decided: numeric non-negativity, scikit-learn's behaviour. Some sub-rules compare normalised statement text of the adapter; an unfamiliar "
              "but equivalent restructuring is reported as ANALYSIS-ERROR / violation of the structural rule and needs triage.",
         ref="3/C16"),
@@ -48,7 +49,8 @@ CLAIMS = {
              "exactly those prefixes, changes only the two noise maps and floors process noise positive; fit raises MinimizationFailure before the "
              "final set_params, takes the final parameters from the reader, refuses only None, and returns with every non-noise parameter holding the "
              "caller's value (a temporary value it installs is restored before the solution is read); the constructors on the compile path do not "
-             "write into the objects they are given, directly or through a local alias.",
+             "write into the objects they are given, directly or through a local alias, and neither does any method of the compiled block (python.BasicBlock) "
+             "into its arglist, expressions or Config (the user's python_modules dicts included).",
         note="Not decided: finiteness of the optimum, other exceptions escaping fit for some data (needs the optimiser's path).",
         ref="3/C17"),
     "C18": dict(
@@ -86,7 +88,8 @@ CLAIMS = {
         text="Static: for each of the four compile entry points the call graph up to the first output action is walked and every fault class of the "
              "property (three overlap pairs, coverage size+keys, calibration-map set equality, noise key/missing/negative, sensor free symbols, sensor "
              "noise keys+sizes) must be discharged by an unconditional raise-guard; C++ entry points validate before _compile_impl, which generates "
-             "both texts before opening files; no guard applies set algebra or equality to a raw user container (valid definitions are accepted).",
+             "both texts before opening files; no guard applies set algebra or equality to a raw user container (valid definitions are accepted); "
+             "no back-end module parses / coerces a model expression after validation (NO-COERCE: what is compiled is what was validated).",
         note="Assumes Python is not run with -O (several guards are asserts). The recognisers check which collections are compared and how, not arithmetic.",
         ref="3/C14"),
     "C02": dict(
@@ -97,7 +100,8 @@ CLAIMS = {
              "(GEN-ITER / SLOT-AGREE), accessors return the slot of their own enumeration index (SLOT-IDX), jacobian(i,j)/covariance(i,j)/"
              "`double name` targets carry the indices of what they are assigned (LAY-JAC/COVIDX/TGT), substitution sets cover exactly the "
              "emitted function's parameters incl. dt (SUBS), control noise is chosen by name (LAY-KEYMAT), cpp.BasicBlock follows the "
-             "temporaries protocol, declarations match definitions and the templates type-check for all four valuations.",
+             "temporaries protocol, declarations match definitions and the templates type-check for all four valuations; the generator's methods keep "
+             "no instance state except memo entries keyed by every parameter the cached value reads, whole (GEN-MEMO).",
         note="Trusted base: sympy diff/subs/ccode. Not decided: compilation against real Eigen, run-time values of the printed expressions.",
         ref="3/C02"),
     "C07": dict(
@@ -137,7 +141,7 @@ CLAIMS = {
         engine="E2 layout + tmprules",
         text="Static: python.Model's sorted argument lists, block statements, frozen calibration vector, execute() actuals, result zip and "
              "by-name State construction are layout-typed for every model at once; python.BasicBlock's compile/execute follow the "
-             "temporaries protocol for both CSE settings; sympy is only called with its trusted signatures. Shared rule sets: the named-vector container binds by name (NV-*), the temporaries protocol, no module-/class-level state (PY-PURE).",
+             "temporaries protocol for both CSE settings; sympy is only called with its trusted signatures; Model.model / SensorModel.model write nothing on the instance and return no window onto instance storage (EVAL-PURE). Shared rule sets: the named-vector container binds by name (NV-*), the temporaries protocol, no module-/class-level state (PY-PURE).",
         note="Trusted base: sympy cse/simplify/lambdify preserve value under their default contracts; floating-point accuracy is not decided.",
         ref="3/C01"),
     "C08": dict(
@@ -152,7 +156,8 @@ CLAIMS = {
         technique="abstract interpretation over a name-layout domain (static, Python ast)",
         engine="E2 layout",
         text="Static: every Jacobian block's differentiation lists, execute() argument layouts and the three row-major un-flatten "
-             "nests are typed with name-layouts and checked for every model at once (stride, row range, column prefix, index order).",
+             "nests are typed with name-layouts and checked for every model at once (stride, row range, column prefix, index order); the "
+             "differentiated entries reach the compiled block without sympy rewriting outside the CSE gate (PY-NO-REWRITE, shared with C01/C04/C05).",
         note="Trusted base: sympy Matrix.jacobian / lambdify / row-major Matrix iteration. Not decided: numeric derivative values.",
         ref="3/C03"),
     "C04": dict(
@@ -160,14 +165,16 @@ CLAIMS = {
         engine="E2 layout + E3 matform + E6 effects",
         text="Static: process_model's products/sums conform on name-typed (primed) axes; returned covariance normalises to "
              "G.P.G^T + V.M.V^T; returned state is the state-model call on the same (dt, state, control); noise matrix is filled by "
-             "control name; the prediction path has no write effects. Shared: NV-* on the named vector / covariance containers; PY-PURE (no state shared between filters).",
+             "control name; the prediction path and the module-level helpers it calls have no write effects (in-place permissions of library calls, "
+             "overwrite_* / out=, count as writes); no sympy rewriting outside the CSE gate. Shared: NV-* on the named vector / covariance containers; PY-PURE (no state shared between filters).",
         note="Trusted base: numpy matmul/transpose/+; values of G, V, f (C03, sympy). P, M symmetric as the property states.",
         ref="3/C04"),
     "C05": dict(
         technique="abstract interpretation (axis typing) + non-commutative normal forms (static)",
         engine="E2 layout + E3 matform",
         text="Static: sensor_model's S, recorded innovation, posterior state and covariance normalise to the Kalman forms; Q is a "
-             "by-name covariance over the sensor's sorted readings; all products/sums conform on name-typed axes (no broadcast). Shared: PY-PURE (no class-level record dicts shared between filters).",
+             "by-name covariance over the sensor's sorted readings, the one compile_ekf was given (ARG-PASS); all products/sums conform on name-typed axes (no broadcast); "
+             "no sympy rewriting outside the CSE gate. Shared: PY-PURE (no class-level record dicts shared between filters).",
         note="Trusted base: numpy linalg.inv/matmul; values of H, h (C03, sympy). Corollaries of the formulas are not separately checked.",
         ref="3/C05"),
     "C10": dict(
@@ -179,7 +186,7 @@ CLAIMS = {
              "(state / covariance / control in their own parameters) and the newest estimate is returned; the configured maximum reaches the "
              "generated C++ constant losslessly; HOLD: a move to a reading's time is committed whole (time, state, covariance in one assignment), so "
              "the held time and estimate cannot part when an update raises; the k-loop counter starts at 0 and advances by one; no narrowing of the time "
-             "arithmetic to float.",
+             "arithmetic to float, and the step count / loop counter are never cast to or held in an integer type of fewer than 64 bits.",
         note="Assumes max_dt_sec > 0 and moderate times (the property's quantifier); trusts clang's front end and IEEE floor/abs.",
         ref="3/C10"),
     "C11": dict(
